@@ -49,6 +49,11 @@ def run(ctx):
     n = 500 if ctx.quick() else 12000
     H, impl, model, dis, hits = hc.run_profile(ctx, profiles.C06, n, trigger=trigger, extra_oracle=direct,
         claims=lambda op, a, b: op in ('EN', 'DE', 'RF', 'UPD'))
+    if not ctx.quick() and not hits:
+        x = hist.x
+        hc.exhaustive(ctx, 'disable sequences', ['SETUP', 'AH '+x('D'), 'AT '+x('D')+' '+x('a')+' 0 -', 'AT '+x('D')+' '+x('b')+' 1 '+x('a'), 'AT '+x('D')+' '+x('c')+' 0 '+x('b'), 'AA '+x('S'), 'AT '+x('S')+' '+x('p')+' 0 -', 'UPD', 'KG '+x('D::b'), 'KG '+x('D::c && S::p'), 'EN 1 '+x('D::a'), 'EN 1 '+x('D::c')],
+            ['DS '+x('D')+' '+x('a'), 'DS '+x('D')+' '+x('c'), 'UPD', 'RK '+x('D::a'), 'RK '+x('*'), 'PR '+x('D::a'), 'MPK', 'RT MSK', 'RN '+x('D')+' '+x('a')+' '+x('z'), 'EN 99 '+x('D::a'), 'EN 99 '+x('D::c && S::p')],
+            5, ['DE 0 0', 'DE 0 1', 'DE 1 0', 'DE 1 1', 'DE 0 2', 'DE 1 2', 'DE 0 3', 'DE 1 3'] + ['EN 99 '+x('D::a'), 'EN 99 '+x('D::z'), 'RF 0 1', 'DE 0 0'], extra_oracle=direct, claims=lambda op, a, b: op in ('EN', 'DE', 'RF', 'UPD'))
     hc.vm_crosscheck(ctx, H, model)
     hc.finish(ctx, f'{n} random histories ... Disable a . Update . (Rekey|Prune|Mpk|RoundTrip|Keygen|Refresh|Update)* . Encaps under every public key ever produced; '
               'non-trivial = a disable, a later update, a later rekey/prune/round-trip/re-derivation and a later encapsulation')
